@@ -147,7 +147,10 @@ def _operand(case, side, unit_name=None):
     dt = np.dtype(_DT[case.get("dt", "f8")] if case["fam"] == "conv" else "float64")
     if case["shape"] == "sc":
         return _U["uq"](dt.type(xs[0]), un)
-    return _U["ua"](np.array(xs, dtype=dt), un)
+    arr = np.array(xs, dtype=dt)
+    if case["shape"][0] == "g":  # "g<r><c>": an r x c grid, row-major
+        arr = arr.reshape(int(case["shape"][1]), int(case["shape"][2]))
+    return _U["ua"](arr, un)
 
 
 def _conv(case):
@@ -239,6 +242,39 @@ def _partner(case, a):
 
 
 _POW = {"2": 2, "3": 3, "half": 0.5, "m1": -1}
+# the axis argument carried by the call form of a repeated product / quotient
+_AXIS = {
+    "function": {},
+    "axnone": {"axis": None},
+    "axnonek": {"axis": None, "keepdims": True},
+    "ax0": {"axis": 0},
+    "ax1": {"axis": 1},
+    "axm1": {"axis": -1},
+    "axm2": {"axis": -2},
+    "axt01": {"axis": (0, 1)},
+    "ax0k": {"axis": 0, "keepdims": True},
+    "ax1k": {"axis": 1, "keepdims": True},
+    "axm1k": {"axis": -1, "keepdims": True},
+}
+_REDLIKE = {
+    "prod_reduce": lambda np, a, kw: np.multiply.reduce(a, **kw),
+    "div_reduce": lambda np, a, kw: np.divide.reduce(a, **kw),
+    "tdiv_reduce": lambda np, a, kw: np.true_divide.reduce(a, **kw),
+    "fdiv_reduce": lambda np, a, kw: np.floor_divide.reduce(a, **kw),
+    "prod": lambda np, a, kw: np.prod(a, **kw),
+    "prodmethod": lambda np, a, kw: a.prod(**kw),
+    "nanprod": lambda np, a, kw: np.nanprod(a, **kw),
+    "mul_accumulate": lambda np, a, kw: np.multiply.accumulate(a, **kw),
+    "div_accumulate": lambda np, a, kw: np.divide.accumulate(a, **kw),
+    "fdiv_accumulate": lambda np, a, kw: np.floor_divide.accumulate(a, **kw),
+    "mul_reduceat": lambda np, a, kw: np.multiply.reduceat(a, [0], **kw),
+    "div_reduceat": lambda np, a, kw: np.divide.reduceat(a, [0], **kw),
+    "fdiv_reduceat": lambda np, a, kw: np.floor_divide.reduceat(a, [0], **kw),
+    "cumprod": lambda np, a, kw: np.cumprod(a, **kw),
+    "nancumprod": lambda np, a, kw: np.nancumprod(a, **kw),
+    "cumulative_prod": lambda np, a, kw: np.cumulative_prod(a, **kw),
+}
+_AT = {"mul_at": "multiply", "div_at": "divide", "fdiv_at": "floor_divide"}
 # product-like operations on two 1-d arrays of three elements
 _PRODUCTS = {
     "dot": lambda np: np.dot,
@@ -246,6 +282,8 @@ _PRODUCTS = {
     "at": lambda np: operator.matmul,
     "vecdot": lambda np: np.vecdot,
     "mouter": lambda np: np.multiply.outer,
+    "douter": lambda np: np.divide.outer,
+    "fdouter": lambda np: np.floor_divide.outer,
     "inner": lambda np: np.inner,
     "outer": lambda np: np.outer,
     "vdot": lambda np: np.vdot,
@@ -301,8 +339,13 @@ def _ref(case):
         b = _partner(case, a)
         f = _PRODUCTS[op](np)
         return f(a, b) if form == "function" else f(b, a)
-    if op in ("cumprod", "nancumprod", "cumulative_prod", "nanprod"):
-        return getattr(np, op)(a)
+    if op in _REDLIKE:
+        return _REDLIKE[op](np, a, _AXIS[form])
+    if op in _AT:
+        b = _partner(case, a)
+        y = a.copy()
+        getattr(np, _AT[op]).at(y, slice(None), np.asarray(b) if isinstance(b, list) else b)
+        return y
     if op in ("square", "sqrt", "cbrt", "reciprocal"):
         uf = getattr(np, op)
         if form == "ufunc":
@@ -323,12 +366,6 @@ def _ref(case):
             return a**p
         a **= p
         return a
-    if op == "prod_reduce":
-        return np.multiply.reduce(a)
-    if op == "prod":
-        return np.prod(a)
-    if op == "prodmethod":
-        return a.prod()
     raise ValueError(op + "/" + form)
 
 
